@@ -88,7 +88,7 @@ theorem substG_of {α : Type _} {z : α} {neg : α → α} {prim : String → α
     {sh : Shape} {map : Array (Option Nat)} {V : NNet} {Gh : Nat → Prop} {h' : NNet} {R : Ren}
     (sv : SubstV z neg prim h c m sh map V Gh) (hw : WFm h) (e : Emb V h' R) (w' : WFm h') (x : ExtP z neg prim V h' R)
     (hN : ∀ d, d < h.net.nodes.size → d ≠ c → ∃ j', j' < h'.net.nodes.size ∧ R.node j' = d)
-    (hQ : ∀ j, j < V.net.nodes.size → isSeqKind (V.net.node j).kind = true → ∃ j', j' < h'.net.nodes.size ∧ R.node j' = j) :
+    (hQ : ∀ j x, map.getD j none = some x → isSeqKind (V.net.node x).kind = true → ∃ j', j' < h'.net.nodes.size ∧ R.node j' = x) :
     SubstG z neg prim h c m sh map h' R := by
   have hglue : ∀ (vV vm : Nat → α), (∀ t (ht : t < (copiedLines m map).length), vm (copiedLines m map)[t] = vV (h.net.lines.size + t)) →
       ∀ l, l < V.net.lines.size → vV l = glueV h m map vV vm l := by
@@ -109,7 +109,7 @@ theorem substG_of {α : Type _} {z : α} {neg : α → α} {prim : String → α
   · intro j x j' hm hj' ej
     rw [e.kind j' hj', ej]; exact sv.kind' j x hm
   · intro j x hm hs
-    exact hQ x (sv.mapLt j x hm) (by rw [sv.kind' j x hm]; exact hs)
+    exact hQ j x hm (by rw [sv.kind' j x hm]; exact hs)
   · intro l hl hne
     -- the line is at a pin of a surviving host node
     obtain ⟨_, b2, _, b4⟩ := hw.back l hl
